@@ -1028,6 +1028,9 @@ func altGuardsD(b *ssa.BasicBlock, depth int) [][]Guard {
 		edge := edgeGuard(p, b)
 		for _, alt := range altGuardsD(p, nd) {
 			g := append(append([]Guard{}, edge...), alt...)
+			if contradictory(g) {
+				continue // syntactic path that no execution takes
+			}
 			out = append(out, g)
 			if len(out) > 24 {
 				return [][]Guard{guardsAtBlock(b)}
@@ -1035,6 +1038,44 @@ func altGuardsD(b *ssa.BasicBlock, depth int) [][]Guard {
 		}
 	}
 	return out
+}
+
+// contradictory: the conjunction contains P and ¬P over the *same SSA
+// condition value* (not merely the same rendering, which could denote two
+// loads of a field that changed in between).
+func contradictory(gs []Guard) bool {
+	seen := map[ssa.Value]bool{}
+	for _, g := range gs {
+		if pol, ok := seen[g.Cond]; ok && pol != g.Pol {
+			return true
+		}
+		seen[g.Cond] = g.Pol
+	}
+	// equality with nil of the same SSA value, both ways
+	type key struct {
+		v ssa.Value
+	}
+	nilEq := map[ssa.Value]bool{}
+	for _, g := range gs {
+		b, ok := g.Cond.(*ssa.BinOp)
+		if !ok || (b.Op != token.EQL && b.Op != token.NEQ) {
+			continue
+		}
+		var v ssa.Value
+		if isNilConst(b.Y) {
+			v = b.X
+		} else if isNilConst(b.X) {
+			v = b.Y
+		} else {
+			continue
+		}
+		isNil := (b.Op == token.EQL) == g.Pol
+		if prev, ok := nilEq[v]; ok && prev != isNil {
+			return true
+		}
+		nilEq[v] = isNil
+	}
+	return false
 }
 
 // edgeGuard: the condition (if any) established by taking edge p->s.
